@@ -352,6 +352,13 @@ theorem mem_Bad {rep : Array Nat} {i : Nat} : i ∈ Bad fg nbs rep ↔ FgA fg i 
   simp only [Finset.mem_filter, Finset.mem_range]
   exact ⟨fun h => h.2, fun h => ⟨h.1.lt, h⟩⟩
 
+open Classical in
+theorem Bad_card_le (rep : Array Nat) : (Bad fg nbs rep).card ≤ fg.size := by
+  have h1 : (Bad fg nbs rep).card ≤ (Finset.range fg.size).card := by
+    unfold Bad
+    exact Finset.card_filter_le _ _
+  rwa [Finset.card_range] at h1
+
 theorem Bad_subset (order : List Nat) (st : Array Nat × Bool) :
     Bad fg nbs (sweepG fg nbs order st).1 ⊆ Bad fg nbs st.1 := by
   intro i hi
